@@ -145,7 +145,9 @@ func Arithm(cfg *Config, expr syntax.ArithmExpr) (int, error) {
 // an arithmetic expression, rather than being a plain number or name.
 func isArithmExprText(s string) bool {
 	s = strings.TrimSpace(s)
-	s = strings.TrimLeft(s, "+-")
+	if s != "" && (s[0] == '+' || s[0] == '-') {
+		s = s[1:] // a single sign is part of a number
+	}
 	if s == "" {
 		return false
 	}
